@@ -25,7 +25,7 @@ RULE = (common.GEN + 'the monitored chart sends events (with delays) and notifie
         'from the returned micro steps, the property chart own clock must equal the monitored step time, and the macro steps must equal those '
         'of a run without any listener. Runs B_k, for EVERY k up to the number of meta-events of run A (thorough) or 10 drawn k (quick): the '
         'call in which meta-event k is emitted raises PropertyStatechartError and the monitored probe log equals the prefix of A up to that '
-        'emission. non-trivial = one tripwire position; distinct = distinct (chart, k, meta-event at k)')
+        'emission. Run D (half of the runs): a property statechart that reacts to no meta-event and only arms a timeout on itself (a delayed internal event, delay drawn) must fail the run at the first meta-event of the first step whose time has reached the deadline, and must change nothing when the deadline is never reached. non-trivial = one tripwire position; distinct = distinct (chart, k, meta-event at k)')
 COMPONENTS = {'real': common.REAL + ['sismic.interpreter.listener.PropertyStatechartListener', 'sismic.clock.SynchronizedClock',
                                      'property-statechart interpreters (real Interpreter instances)'], 'stub': common.STUB}
 ASSUMPTIONS = common.ASSUME + ["the deprecated 'delayed event sent' meta-event is tolerated (neither required nor forbidden)"]
@@ -59,6 +59,21 @@ def _tripwire_chart(armed=False):
         sc.add_transition(Transition('s', None, event=n, action='n = n + 1'))
     sc.add_transition(Transition('s', 'f', guard='n >= K'))
     return sc
+
+
+def _timebomb_chart():
+    """a property statechart that reacts to no meta-event at all: entering its first state arms a timeout on itself (a delayed
+    internal event) and the timeout makes it final.  It is run at every meta-event, so it fails at the first meta-event of the
+    first monitored step whose time has reached the deadline"""
+    sc = Statechart('timebomb')
+    sc.add_state(CompoundState('r', initial='s'), None)
+    sc.add_state(BasicState('s', on_entry="send('boom', delay=D)"), 'r')
+    sc.add_state(FinalState('f'), 'r')
+    sc.add_transition(Transition('s', 'f', event='boom'))
+    return sc
+
+
+TIMEBOMB = _timebomb_chart()
 
 
 def _idle_chart():
@@ -360,5 +375,45 @@ def run(ch, tier):
         res.nontrivial.add(fp((cfp, k, target)))
         if res.sample is None:
             res.sample = ctx
+    # ---------------- run D: a property statechart that only waits for its own timeout
+    if fs.flag(1, 2):
+        D = fs.pick([0, 1, 2, 5, 0.5, 0.25])
+        times = [F(x[1]) for x in q.seen]
+        k = next((i for i, t in enumerate(times) if t >= times[0] + F(D)), None)
+        b = Sim(sp, clock=mkclock(), ignore_contract=not contracts)
+        pb = Plain(b)
+        mk = lambda sc, clock: Interpreter(sc, clock=clock, initial_context={'D': D})   # noqa
+        if trip_first:
+            b.it.bind_property_statechart(TIMEBOMB, interpreter_klass=mk)
+            b.it.attach(pb)
+        else:
+            b.it.attach(pb)
+            b.it.bind_property_statechart(TIMEBOMB, interpreter_klass=mk)
+        exc = None
+        for r in replay_script(b, script):
+            if r.exc is not None and not (r.sel is not None and r.sel.err and type(r.exc).__name__ == r.sel.err):
+                exc = r.exc
+                break
+        ctx = dict(chart=sp.describe(), delay=D, first_meta_event_at=float(times[0]), script=[repr(o)[:60] for o in script][:30])
+        res.stats['fault_property_timeout_' + ('never_due' if k is None else 'due')] += 1
+        if k is None:
+            if exc is not None or b.P.log != L:
+                return res.fail('intrusive', 'a property statechart whose timeout (%s after the first step) never fell due changed the run: %s' % (
+                    D, type(exc).__name__ if exc is not None else 'executed code differs'), **ctx)
+        else:
+            target, cut = plain.seen[k]
+            ctx['meta_event'] = target
+            if exc is None:
+                return res.fail('not-fail-fast', 'the timeout of the property statechart fell due at meta-event %d (%s, step time %s) but no call raised'
+                                % (k + 1, target[0], float(times[k])), **ctx)
+            if not isinstance(exc, sx.PropertyStatechartError):
+                return res.fail('wrong-error', 'expected PropertyStatechartError, got %s: %s' % (type(exc).__name__, str(exc)[:80]), **ctx)
+            if b.P.log != L[:cut]:
+                return res.fail('code-ran-after-property-failed' if len(b.P.log) > cut else 'prefix-differs',
+                                'the timeout of the property statechart fell due at meta-event %d (%s), emitted after %d probe events; the run '
+                                'executed %d: extra %r' % (k + 1, target[0], cut, len(b.P.log), b.P.log[cut:cut + 4]), **ctx)
+            if len(pb.seen) != (k if trip_first else k + 1):
+                return res.fail('emission-count', 'plain listener saw %d meta-events in the run whose property statechart timed out at meta-event %d'
+                                % (len(pb.seen), k + 1), **ctx)
     res.sim_time = float(a.now())
     return res
